@@ -104,8 +104,8 @@ class Gen:
         self.nleaf += 1
         k = r.random()
         if k < 0.45:
-            return {'t': 'beta', 'n': f'b{r.randint(1, 6)}', 'fixed': r.random() < 0.25,
-                    'v': r.choice([0, 1, -1, 0.5, 2, -0.25, 3])}
+            i = r.randint(1, 6)  # status and value are functions of the name (one parameter, one definition)
+            return {'t': 'beta', 'n': f'b{i}', 'fixed': i >= 5, 'v': [0, 1, -1, 0.5, 2, -0.25, 3][i]}
         if k < 0.75 and not self.value_mode:
             return {'t': 'var', 'n': r.choice(['x', 'y', 'z', 'tt', 'cost'])}
         return {'t': 'num', 'v': r.choice([0, 1, 2, -1, 3, 0.5, 10, -4])}
@@ -668,7 +668,7 @@ def plan_case(rng, spec, quick, value_mode):
         listing = [list(p) for p in cfg]
         rng.shuffle(listing)
         hand = hand_subst(x, dict(cfg))
-        configure.append({'sels': listing, 'value': value_mode, 'hand': hand if value_mode else None})
+        configure.append({'sels': listing, 'value': value_mode, 'hand': hand})
     ids = [canon_id(c) for c in product]
     roundtrip = [canon_id(c) for c in chosen]
     # a few ids written in a different order / with a repeated controller (last one wins)
@@ -795,6 +795,14 @@ def check_structure(ctx, sts, idx, case, info, r, items, origin):
                               f'{k}: elementary expressions of the configured formula differ from the hand-written one',
                               w, sorted(names[k]), o.get('elem'))
                 break
+        cnt = ctx.notes.setdefault('c16_delegated_views', {'signatures_compared': 0, 'signature_unavailable': 0})
+        cnt['signatures_compared' if isinstance((o.get('view') or {}).get('sig'), str) else 'signature_unavailable'] += 1
+        if o.get('view') != o.get('hand_view'):
+            # get_children() / get_signature() (after set_id_manager) of the configured formula, object
+            # identities eliminated, against the same operations on the hand-written formula
+            ctx.violation('C16/configure/delegated-view-differs',
+                          'get_children / get_signature of the configured formula differ from those of the hand-written formula',
+                          w, o.get('hand_view'), o.get('view'))
         if q.get('value'):
             # both numbers come from the library's own get_value on structurally identical trees
             # (same operations in the same order): bit-for-bit equality is the expected outcome
